@@ -7,6 +7,12 @@ PKGS = {
 }
 
 PROPS = {
+    "C08": {
+        "harnesses": [
+            {"pkg": "interpreter", "name": "VH_C08_Alias", "quick": {"params": {"K": 2, "U": 6, "NUMERIC": 0}}, "thorough": {"params": {"K": 3, "U": 8, "NUMERIC": 1}}},
+        ],
+        "assumptions": [],
+    },
     "C07": {
         "harnesses": [
             {"pkg": "interpreter", "name": "VH_C07_Step", "quick": {"params": {"D": 3, "K": 2, "A": 1, "C": 0, "TX": 0, "U": 6}}, "thorough": {"params": {"D": 6, "K": 3, "A": 1, "C": 0, "TX": 0, "U": 8}}},
